@@ -69,6 +69,76 @@ def r06_1(prog, tab):
     return r
 
 
+def r06_1b(prog, tab):
+    """SET_OF_encode_xer with XER_F_CANONICAL: the per-element output inside the element loop goes to the collecting
+    callback, never to the caller's callback.  The CFG is walked from the entry with the canonical flag variable (the
+    local initialised from `flags & XER_F_CANONICAL`) assumed non-zero and the definition of the callback variable that
+    is current on the path tracked; at every use of that variable inside a loop that calls the member xer_encoder the
+    current definition must be a function (the collector), not the parameter's incoming value."""
+    r = Rule("R06.1b", "with XER_F_CANONICAL every element byte produced inside the element loop goes to the collecting callback (to be sorted), on every path", floor=2)
+    f = prog.func("SET_OF_encode_xer")
+    if f is None:
+        raise AnalysisBroken("SET_OF_encode_xer not found")
+    flagvar = None
+    for b, i, e in f.events("decl"):
+        if "init" in e and "XER_F_CANONICAL" in e["init"].get("enums", []):
+            flagvar = e["id"]
+    cbvar = next((p_["id"] for p_ in f.params if "asn_app_consume_bytes_f" in p_["type"]), None)
+    if flagvar is None or cbvar is None:
+        raise AnalysisBroken("SET_OF_encode_xer: canonical flag variable or callback parameter not found")
+    member_calls = [(b, i, e) for b, i, e in f.calls() if e.get("slot") == "xer_encoder"]
+    loops = [(h, body) for h, body in f.loops() if any(b.id in body for b, i, e in member_calls)]
+    if not loops:
+        raise AnalysisBroken("SET_OF_encode_xer: element loop not found")
+    inloop = set().union(*[body for h, body in loops])
+
+    def isflag(t):
+        return is_var(t, flagvar)
+    seen = set()
+    st = [(f.entry, "param")]
+    uses = {}
+    while st:
+        bid, cur = st.pop()
+        if (bid, cur) in seen:
+            continue
+        seen.add((bid, cur))
+        blk = f.blocks[bid]
+        stop = False
+        for j, x in enumerate(blk.ev):
+            if x["k"] == "call" and bid in inloop:
+                used = x.get("fp_var") == cbvar or any(is_var(strip_casts(a.get("tree")), cbvar) for a in x.get("args", []))
+                if used:
+                    uses.setdefault((bid, j), (x, set()))[1].add(cur)
+            if x["k"] == "assign" and x.get("base_id") == cbvar and x.get("lhs") == x.get("base") and not x.get("deref"):
+                rt = strip_casts(x["rhs"]["tree"]) if "rhs" in x else None
+                cur = "fn:" + rt[1] if isinstance(rt, list) and rt and rt[0] == "fn" else "other:" + x.get("rhs", {}).get("text", "?")
+            if x["k"] == "return":
+                stop = True
+                break
+        if stop:
+            continue
+        alive = [idx for idx, s_ in enumerate(blk.succ) if s_ is not None]
+        if blk.term and "cond" in blk.term and len(blk.succ) >= 2 and blk.term["kind"] != "SwitchStmt":
+            v = assume.eval_under(blk.term["cond"]["tree"], isflag, 1)
+            if v is not None:
+                alive = [0] if v else [1]
+        for idx in alive:
+            st.append((blk.succ[idx], cur))
+    if not uses:
+        raise AnalysisBroken("SET_OF_encode_xer: no use of the callback inside the element loop")
+    n = 0
+    for (bid, j), (x, defs) in sorted(uses.items()):
+        n += 1
+        key = "loop-output@%d" % n
+        notfn = sorted(d for d in defs if not d.startswith("fn:"))
+        if notfn:
+            r.bad(f, key, "with the canonical flag set this use of `%s` inside the element loop can still see %s: element text goes "
+                          "straight to the caller in memory order, unsorted" % (cbvar.split("@")[0], ", ".join(notfn)), x["line"])
+        else:
+            r.ok(f, key, "under the canonical flag the callback here is always %s" % ", ".join(sorted(defs)), x["line"])
+    return r
+
+
 def r06_2(prog, tab):
     r = Rule("R06.2", "a member whose value equals its DEFAULT is not encoded, in every pass of every canonical SEQUENCE/SET encoder", floor=5)
     for name in tab["default_eliminating_encoders"]:
@@ -136,6 +206,91 @@ def r06_2(prog, tab):
     return r
 
 
+def r06_3(prog, tab):
+    """Every pass over the members agrees on DEFAULT elimination: in the canonical SEQUENCE/SET encoders each loop that
+    looks at a member's storage (element_ptr(), or the memb_offset field) contains a default_value_cmp call, and under
+    the assumption that the call answered 0 no `presence effect` is reachable before the next member: no local flag is
+    set to a non-zero constant, nothing is added (+=) to a size, and no encoder is called.  (`t2m_count++` in
+    SET_encode_der is a slot counter that absent members advance too, so ++ is not an effect.)"""
+    r = Rule("R06.3", "every member loop of the canonical SEQUENCE/SET encoders (presence bitmaps, extension flags, size passes) drops DEFAULT-valued members", floor=8)
+    for name in tab["default_eliminating_encoders"]:
+        f = prog.func(name)
+        if f is None:
+            continue
+        loops = f.loops()
+        # innermost-first is irrelevant: every loop that touches member storage is an instance
+        for h, body in sorted(loops, key=lambda x: x[0]):
+            touches = False
+            for bid in body:
+                for e in f.blocks[bid].ev:
+                    if e["k"] == "call" and e.get("callee") == "element_ptr":
+                        touches = True
+                    for fld in ("rhs", "init", "expr"):
+                        if fld in e and any(n[0] == "member" and n[2] == "memb_offset" for n in walk(e[fld]["tree"])):
+                            touches = True
+            if not touches:
+                continue
+            line = min((f.blocks[bid].term or {}).get("line") or 10**9 for bid in body if f.blocks[bid].term) if any(f.blocks[bid].term for bid in body) else None
+            key = "member-loop@%d" % sorted(h2 for h2, b2 in loops if any(
+                ee["k"] == "call" and ee.get("callee") == "element_ptr" or any(
+                    fld in ee and any(n[0] == "member" and n[2] == "memb_offset" for n in walk(ee[fld]["tree"])) for fld in ("rhs", "init", "expr"))
+                for bb in b2 for ee in f.blocks[bb].ev)).index(h)
+            cmps = [(f.blocks[bid], i, e) for bid in sorted(body) for i, e in enumerate(f.blocks[bid].ev)
+                    if e["k"] == "call" and e.get("slot") == "default_value_cmp"]
+            if not cmps:
+                r.bad(f, key, "this loop over the members tests member storage but never consults default_value_cmp: a member "
+                              "stored explicitly with its DEFAULT value is counted as present here while the sibling passes drop it", line)
+                continue
+            bad = None
+            for cb, ci, ce in cmps:
+                subj = assume.subject_of_call(ce, None)
+                if subj is None:
+                    bad = ("result of default_value_cmp is not tested", ce["line"])
+                    break
+                pred = subj.pred()
+                seen, st = set(), [(cb.id, ci + 1)]
+                while st and not bad:
+                    bid, pos = st.pop()
+                    if (bid, pos) in seen or bid not in body:
+                        continue
+                    seen.add((bid, pos))
+                    if bid == h and (bid, pos) != (cb.id, ci + 1):
+                        continue
+                    blk = f.blocks[bid]
+                    stop = False
+                    for j in range(pos, len(blk.ev)):
+                        x = blk.ev[j]
+                        if x["k"] == "return" or (bid, j) == (cb.id, ci):
+                            stop = True
+                            break
+                        if x["k"] == "assign" and x.get("base_kind") == "local" and not x.get("deref") and x.get("lhs") == x.get("base"):
+                            c = const_of(x["rhs"]["tree"]) if "rhs" in x else None
+                            if (x.get("op") == "=" and c not in (None, 0)) or x.get("op") == "+=":
+                                if not x["base_id"].split("@")[0] in ("edx", "i", "n"):
+                                    bad = ("`%s %s ...` is executed" % (x["lhs"], x["op"]), x["line"])
+                                    break
+                        if x["k"] == "call" and ((x.get("slot") in common.ENCODER_SLOTS) or x.get("callee") in ("oer_open_type_put", "uper_open_type_put")):
+                            bad = ("an encoder is called", x["line"])
+                            break
+                    if stop or bad:
+                        continue
+                    alive = [idx for idx, s_ in enumerate(blk.succ) if s_ is not None]
+                    if blk.term and "cond" in blk.term and len(blk.succ) >= 2 and blk.term["kind"] != "SwitchStmt":
+                        v = assume.eval_under(blk.term["cond"]["tree"], pred, 0)
+                        if v is not None:
+                            alive = [0] if v else [1]
+                    for idx in alive:
+                        st.append((blk.succ[idx], 0))
+                if bad:
+                    break
+            if bad:
+                r.bad(f, key, "although default_value_cmp answered 0 (member equals its DEFAULT) %s at line %s before the next member: "
+                              "this pass counts the member as present" % bad, line)
+            else:
+                r.ok(f, key, "consults default_value_cmp; under `equals DEFAULT` no flag/size/encoder effect before the next member", line)
+    return r
+
+
 def _reaches(f, cb, b):
     return b.id in f.reachable_from([cb.id])
 
@@ -143,7 +298,7 @@ def _reaches(f, cb, b):
 def run(ctx):
     prog = ctx.prog("S")
     tab = load_tables("c06")
-    return [r06_1(prog, tab), r06_2(prog, tab)]
+    return [r06_1(prog, tab), r06_1b(prog, tab), r06_2(prog, tab), r06_3(prog, tab)]
 
 
 def thorough(ctx):
